@@ -78,8 +78,18 @@ def malform(rng, fmt, text, p):
             idx = len(lines) - 2
         if idx < 1:
             return None
-        kind = rng.choice(["long", "short"] if fmt != "csv" else ["long", "short", "long"])
-        if kind == "long":
+        kind = rng.choice(["long", "short"] if fmt != "csv" else ["long", "short", "long", "open_quote", "bare_quote", "quote_then_text", "extra_open_quote", "extra_bare_quote"])
+        if kind in ("open_quote", "bare_quote", "quote_then_text"):
+            # RFC-4180 violations inside one field: an opening quote that is never closed (swallows the following
+            # lines), a quote in the middle of an unquoted field, text after the closing quote
+            parts = lines[idx].split(sep)
+            k = rng.below(len(parts))
+            parts[k] = {"open_quote": "\"" + parts[k] + "xy", "bare_quote": parts[k] + "x\"y", "quote_then_text": "\"" + parts[k] + "\"z"}[kind]
+            lines[idx] = sep.join(parts)
+        elif kind in ("extra_open_quote", "extra_bare_quote"):
+            # the damage sits in a field beyond the header's length: what was parsed before it looks like a whole record
+            lines[idx] = lines[idx] + sep + ("\"xy" if kind == "extra_open_quote" else "x\"y")
+        elif kind == "long":
             lines[idx] = lines[idx] + sep + "extra" + sep + "more"
         else:
             parts = lines[idx].split(sep)
